@@ -37,11 +37,23 @@ GEOM = {"Cuboid": (1.0, 1.2, 0.8), "Cuboid-flat": (2.0, 0.1, 1.0), "Cuboid-long"
         "Cuboid-polx": (1.0, 1.2, 0.8), "Cuboid-poly": (1.0, 1.2, 0.8), "Cuboid-polz": (1.0, 1.2, 0.8), "Cuboid-polxy": (1.0, 1.2, 0.8)}
 
 
+# cylinders over a grid of diameter : height ratios (rim set only): whether z/r0 and z0/r0 round to the same number for an
+# observer 1 ulp off a base plane depends on the ratio
+RATIO_D = (1.0, 2.0, 2.2, 3.0, 5.0, 6.0, 10.0)
+RATIO_H = (1.0, 1.7, 1.9, 2.0, 3.8, 7.0)
+for _d in RATIO_D:
+    for _h in RATIO_H:
+        GEOM[f"Cylinder-ratio{_d:g}x{_h:g}"] = (_d, _h)
+
+
 def sources():
     import magpylib as magpy
 
     pol = (0.2, -0.3, 0.9)
     S = {}
+    for nm in GEOM:
+        if nm.startswith("Cylinder-ratio"):
+            S[nm] = lambda nm=nm, **kw: magpy.magnet.Cylinder(dimension=GEOM[nm], polarization=pol, **kw)
     for nm in ("Cuboid-flat", "Cuboid-long"):
         S[nm] = lambda nm=nm, **kw: magpy.magnet.Cuboid(dimension=GEOM[nm], polarization=pol, **kw)
     for nm in ("Cylinder-flat", "Cylinder-long"):
@@ -292,7 +304,9 @@ def run(tier, seed):
     for name in sources():
         sets = point_sets(name)
         for si, (label, pts, allow) in enumerate(sets):
-            for pose_i in (0, 1):
+            if name.startswith("Cylinder-ratio") and label != "rim-lattice":
+                continue
+            for pose_i in ((0, 1) if not name.startswith("Cylinder-ratio") else (0,)):
                 for field in ("B", "H", "J", "M") if (tier == "thorough" or pose_i == 0) else ("B",):
                     if field in "JM" and label == "far":
                         continue
